@@ -166,6 +166,12 @@ def cases(tier):
     out = list(_base_cases(tier))
     for i in range(len(lmdbconf.OPS)):
         out.append(("conformance", "liblmdb", [i], 3 if tier == "quick" else 4))
+    # histories interrupted by injected failures: every mutation index of every transition of short histories gets an engine
+    # error and a kill; the keyspace must be coherent afterwards (the before-or-after question itself is C07's)
+    for un in ("U10", "U8", "U9a"):
+        names = list(CHECK.U()[un])
+        for first in (names if tier == "thorough" else names[::2]):
+            out.append(("faults", un, [first], 2))
     return out
 
 
@@ -190,10 +196,61 @@ def run_conformance(case):
             "sample": {"case": "conformance", "first_op": repr(lmdbconf.OPS[i])[:40], "sequences": r["sequences"], "library": r["library"]}}
 
 
+def run_faults(case):
+    from . import c07
+    from .. import fakelmdb
+
+    _, un, (first,), depth = case
+    uni = CHECK.U()[un]
+    sess = seq.session("kv")
+    pairs = {}
+
+    def on_transition(hist, pre, nm, r, post):
+        pairs.setdefault((store.sdigest(pre), nm), (pre, nm))
+        return []
+
+    store.bfs(sess, uni, [first], depth, on_transition)
+    seq.close_all()
+    viol = []
+    n = 0
+    for key in sorted(pairs):
+        pre, nm = pairs[key]
+        w = c07.fresh_world("kv", pre)
+        try:
+            c0 = c07.mutation_count(w)
+            c07.operate(w, ("event", uni[nm]))
+            nmut = c07.mutation_count(w) - c0
+        finally:
+            w.close()
+        for mode in ("error", "crash"):
+            for k in range(1, nmut + 1):
+                w = c07.fresh_world("kv", pre)
+                try:
+                    c07.arm(w, mode, k)
+                    try:
+                        c07.operate(w, ("event", uni[nm]))
+                    except fakelmdb.Crash:
+                        pass
+                    finally:
+                        c07.disarm(w)
+                    n += 1
+                    for v in invariant(w.dump()):
+                        viol.append({"case": "kv|U=%s|faults" % un, "clause": v["clause"], "sig": "%s@%s|%s@%d/%d" % (v["sig"], key[0], mode, k, nmut),
+                                     "detail": v["detail"] + " | after an injected %s at mutation %d/%d of %s from state %s (shard first=%s)" % (
+                                         mode, k, nmut, nm, key[0], first)})
+                finally:
+                    w.close(remove=True)
+    return {"id": "faults|%s|%s" % (un, first), "viol": viol, "outcome": None, "evals": max(n, 1), "states": n, "transitions": n, "nontrivial": n > 0,
+            "desc": describe(case), "extra": {"fault_interrupted_histories": n},
+            "sample": {"case": "faults", "universe": un, "first": first, "faulted_executions": n}}
+
+
 def run_case(case):
     """after the BFS shard: additional GC / delete_event transitions from every member's singleton and pair stores"""
     if case[0] == "conformance":
         return run_conformance(case)
+    if case[0] == "faults":
+        return run_faults(case)
     r = _base_run_case(case)
     backend, un, prefix, depth = case
     uni = CHECK.U()[un]
